@@ -23,7 +23,7 @@ import sys
 import time
 
 TRACE_SET = ('openat,open,creat,mkdir,mkdirat,unlink,unlinkat,rmdir,rename,renameat,'
-             'renameat2,getdents64')
+             'renameat2,getdents64,chdir')
 MARK = '/ctmverif_fs_marker'
 PY = '/venv/bin/python'
 VERIF = pathlib.Path(__file__).resolve().parent.parent
@@ -81,6 +81,7 @@ PATTERNS = {
     'rename': re.compile(r'^rename\(' + _STR + r', ' + _STR + r'\)' + _RET),
     'renameat': re.compile(r'^renameat\(' + _FD + r', ' + _STR + r', ' + _FD + r', ' + _STR + r'\)' + _RET),
     'renameat2': re.compile(r'^renameat2\(' + _FD + r', ' + _STR + r', ' + _FD + r', ' + _STR + r', [A-Z_|0-9a-fx]+\)' + _RET),
+    'chdir': re.compile(r'^chdir\(' + _STR + r'\)' + _RET),
     'getdents64': re.compile(r'^getdents64\(' + r'-?\d+(?:<((?:[^>\\]|\\.)*)>)?' + r',\s*.*\)' + _RET),
 }
 
@@ -108,6 +109,11 @@ def parse_log(path, cwd):
     system calls must be understood: an unparsable line is an error (never skipped silently)."""
     pending = {}
     events = []
+    # working directories: the child changes into the run's working directory before a run (job['cwd']) and
+    # back afterwards; processes forked in between inherit it.  A relative path is resolved against the last
+    # chdir of its own process, else against the most recent chdir of any process, else against `cwd`.
+    last_cwd = cwd
+    cwd_of = {}
     with open(path, errors='replace') as f:
         for raw in f:
             m = _LINE.match(raw.rstrip('\n'))
@@ -134,28 +140,33 @@ def parse_log(path, cwd):
             if not mm:
                 raise ParseError(f'cannot parse strace line: {raw!r}')
             g = mm.groups()
+            cw = cwd_of.get(pid, last_cwd)
+            if name == 'chdir':
+                if int(g[1]) == 0:
+                    last_cwd = cwd_of[pid] = _abs(None, g[0], cw)
+                continue
             ev = {'pid': pid, 't': t, 'sys': name}
             if name == 'openat':
-                ev.update(path=_abs(g[0], g[1], cwd), flags=g[2].split('|'), ret=int(g[3]))
+                ev.update(path=_abs(g[0], g[1], cw), flags=g[2].split('|'), ret=int(g[3]))
             elif name == 'open':
-                ev.update(path=_abs(None, g[0], cwd), flags=g[1].split('|'), ret=int(g[2]))
+                ev.update(path=_abs(None, g[0], cw), flags=g[1].split('|'), ret=int(g[2]))
             elif name == 'creat':
-                ev.update(path=_abs(None, g[0], cwd), flags=['O_WRONLY', 'O_CREAT', 'O_TRUNC'], ret=int(g[1]))
+                ev.update(path=_abs(None, g[0], cw), flags=['O_WRONLY', 'O_CREAT', 'O_TRUNC'], ret=int(g[1]))
             elif name == 'mkdir':
-                ev.update(path=_abs(None, g[0], cwd), ret=int(g[1]))
+                ev.update(path=_abs(None, g[0], cw), ret=int(g[1]))
             elif name == 'mkdirat':
-                ev.update(path=_abs(g[0], g[1], cwd), ret=int(g[2]))
+                ev.update(path=_abs(g[0], g[1], cw), ret=int(g[2]))
             elif name == 'unlink':
-                ev.update(path=_abs(None, g[0], cwd), ret=int(g[1]))
+                ev.update(path=_abs(None, g[0], cw), ret=int(g[1]))
             elif name == 'unlinkat':
-                ev.update(path=_abs(g[0], g[1], cwd), ret=int(g[3]))
+                ev.update(path=_abs(g[0], g[1], cw), ret=int(g[3]))
                 ev['sys'] = 'rmdir' if 'AT_REMOVEDIR' in g[2].split('|') else 'unlink'
             elif name == 'rmdir':
-                ev.update(path=_abs(None, g[0], cwd), ret=int(g[1]))
+                ev.update(path=_abs(None, g[0], cw), ret=int(g[1]))
             elif name == 'rename':
-                ev.update(path=_abs(None, g[0], cwd), path2=_abs(None, g[1], cwd), ret=int(g[2]))
+                ev.update(path=_abs(None, g[0], cw), path2=_abs(None, g[1], cw), ret=int(g[2]))
             elif name in ('renameat', 'renameat2'):
-                ev.update(path=_abs(g[0], g[1], cwd), path2=_abs(g[2], g[3], cwd), ret=int(g[4]))
+                ev.update(path=_abs(g[0], g[1], cw), path2=_abs(g[2], g[3], cw), ret=int(g[4]))
                 ev['sys'] = 'rename'
             elif name == 'getdents64':
                 if g[0] is None:
@@ -479,6 +490,9 @@ def _install_fault(fault):
 
     def worker(*args, **kwargs):
         if int(kwargs.get('r0', -1)) == int(fault['r0']):
+            # 'delay': the worker dies late (its siblings have finished by then), so that whether orphaned
+            # workers are still writing when the stage raises is not left to a race
+            time.sleep(float(fault.get('delay', 0)))
             if fault['how'] == 'exit':
                 os._exit(int(fault.get('code', 3)))
             raise RuntimeError('injected worker failure')
